@@ -1,7 +1,7 @@
 #!/bin/bash
 # dev aid: dev/seed_eval.sh <Cxx> <n> [check args]  -- copy a sub-agent seed, confirm its demo in the scratch worktree, run the check against it
 P=$1; N=$2; shift 2
-WT=/tmp/wt_$P
+WT=${WT:-/tmp/wt_$P}
 D=/verif/seeded/$P-$N
 mkdir -p $D && cp $WT/seed_out/patch.diff $WT/seed_out/demo.py $WT/seed_out/notes.md $D/ 2>/dev/null
 cd $WT || exit 1
